@@ -1,5 +1,6 @@
 import WfProofs.ReplayResume
 import WfModel.GenReplay
+import WfProofs.TickStream
 /-!
 # C13 — a server restart at any persisted point resumes without losing work
 
@@ -660,6 +661,33 @@ theorem C13_source_shape :
   have h3 : GenReplay.startFiltersWorkflow = true := by decide
   rw [h1, h2, h3]
   cases hs : h.status <;> cases hi : h.idle <;> simp [startQuery, hs, hi, C13.statusStr]
+
+/-! ## reading the persisted log back -/
+
+/-- **The tick source of the replay is the whole log.** `SqliteWorkflowStore.stream_ticks` (pages of
+`_TICK_PAGE_SIZE` rows, keyset cursor = sequence of the last row yielded, stop on a short page) yields, for
+every persisted log (sequence column strictly increasing: `append_tick` assigns `MAX(sequence)+1` per run) of
+any length — below, at and beyond any number of pages — exactly the rows of `get_ticks`, in order, none
+skipped, none twice; and so for every positive page size. -/
+theorem C13_stream_ticks_complete (rows : List Nat) (h : rows.Pairwise (· < ·)) :
+    TickStream.streamTicks GenReplay.tickPageSize rows = TickStream.getTicks rows ∧
+    (∀ page, 0 < page → TickStream.streamTicks page rows = rows) :=
+  ⟨TickStream.streamTicks_complete _ (by decide) rows h, fun page hp => TickStream.streamTicks_complete page hp rows h⟩
+
+/-- what the model `WfModel/TickStream.lean` assumes of the source, re-extracted on every run: the page size is a
+positive literal, both page queries are `… ORDER BY sequence LIMIT _TICK_PAGE_SIZE` (one of them `AND sequence > ?`),
+the cursor is only ever the sequence of the row just yielded, the loop ends exactly on a short page -/
+theorem C13_tick_stream_shape :
+    0 < GenReplay.tickPageSize ∧ GenReplay.streamLimitIsPageSize = true ∧
+    GenReplay.streamCursorIsLastYielded = true ∧ GenReplay.streamStopsOnShortPage = true := by
+  decide
+
+/-- non-vacuity: three pages and a short one, sequences with gaps; a log of exactly two pages costs one more (empty) query -/
+example : TickStream.streamTicks 3 [0, 1, 2, 3, 5, 6, 9, 10, 11, 12] = [0, 1, 2, 3, 5, 6, 9, 10, 11, 12] ∧
+    TickStream.fetch [0, 1, 2, 3, 5, 6, 9, 10, 11, 12] (some 2) 3 = [3, 5, 6] ∧
+    TickStream.streamTicks 3 [0, 1, 2, 3, 4, 5] = [0, 1, 2, 3, 4, 5] ∧
+    TickStream.fetch [0, 1, 2, 3, 4, 5] (some 5) 3 = [] := by
+  decide
 
 /-! ## non-vacuity -/
 
